@@ -80,9 +80,13 @@ ProbeCheck(m, r) ==
       exs == ExSet(m, r.id)
       follows == r.has /\ r.dv \in {Abs(m.ld[b] - m.tx[t]) * 1000, Abs(m.ldp[b] - m.tx[t]) * 1000}
       holds == ~r.has /\ r.dv = m.last[r.id]
+      \* the second parameter (input range [0, 1], curved easing): at the end of its output range for every distance >= 1
+      Cl(d) == IF d = 0 THEN 0 ELSE 1000
+      clamped == r.dv2 \in {Cl(Abs(m.ld[b] - m.tx[t])), Cl(Abs(m.ldp[b] - m.tx[t]))}
   IN IF "no" \in exs /\ r.h THEN "silent_without_listener"
      ELSE IF exs = {"yes"} /\ ~r.h THEN "audible_with_listener"
      ELSE IF g = "yes" /\ ~follows THEN "distance_parameter_follows_listener"
+     ELSE IF g = "yes" /\ r.has /\ ~clamped THEN "distance_mapping_clamps_beyond_its_input_range"
      ELSE IF g = "no" /\ ~holds THEN "distance_parameter_holds_without_listener"
      ELSE IF g = "maybe" /\ ~(follows \/ holds) THEN "distance_parameter_follows_listener"
      ELSE ""
@@ -210,12 +214,26 @@ UpdGeo(m, e) ==
   ELSE LET m1 == [m EXCEPT !.hl = TRUE, !.ld2 = Dist2(e), !.lgl = e.gl, !.lgr = e.gr]
        IN IF e.rel = 0 THEN [m1 EXCEPT !.hb = TRUE, !.base = e] ELSE m1
 
+\* ------------------------------------------------------------------ a distance mapping installed through the handle
+\* kind = "vmap": the track's volume is set (with a tween) to a mapping from the listener distance, 0..16 units onto
+\* 0..-16 dB; once the tween is over the gain follows the distance - also after the emitter has moved.
+\*   vm x g      the emitter sits x units from the listener (steady state); g = gain * 10^6
+AmpDb == <<1000000, 891251, 794328, 707946, 630957, 562341, 501187, 446684, 398107,
+           354813, 316228, 281838, 251189, 223872, 199526, 177828, 158489>>          \* 10^(-x/20) * 10^6, x = 0..16
+CheckVm(m, e) ==
+  IF e.a # "vm" THEN ""
+  ELSE IF e.p THEN "no_panic"
+  ELSE IF e.x < 0 \/ e.x > 16 THEN "harness_distance_out_of_table"
+  ELSE IF Abs(e.g - AmpDb[e.x + 1]) > 60 THEN "distance_parameter_follows_listener"
+  ELSE ""
+
 \* ------------------------------------------------------------------ both
 PInit(c) == IF c.kind = "life" THEN PInitLife(c)
             ELSE IF c.kind = "geo" THEN PInitGeo(c)
             ELSE [kind |-> "none", cfg |-> c]
 Check(m, e) == IF m.kind = "life" THEN CheckLife(m, e)
-               ELSE IF m.kind = "geo" THEN CheckGeo(m, e) ELSE ""
+               ELSE IF m.kind = "geo" THEN CheckGeo(m, e)
+               ELSE IF m.kind = "none" /\ m.cfg.kind = "vmap" THEN CheckVm(m, e) ELSE ""
 Upd(m, e) == IF m.kind = "life" THEN UpdLife(m, e)
              ELSE IF m.kind = "geo" THEN UpdGeo(m, e) ELSE m
 =============================================================================
